@@ -1,9 +1,28 @@
+import os, sys
+sys.path.insert(0, os.path.dirname(os.path.dirname(os.path.abspath(__file__))))
+import checklib
+
+TS_METHODS = ["Init", "Front", "Back", "PushFront", "PushBack", "Remove", "InsertBefore", "InsertAfter", "MoveToFront",
+              "MoveToBack", "MoveBefore", "MoveAfter", "PushBackList", "PushFrontList", "ForEach", "ForEachReverse",
+              "Range", "RangeReverse", "Values", "Len"]
+
+
+def regen(ctx):
+    """Synchronisation skeleton of every method of the thread-safe wrapper (one lock / deferred unlock around exactly
+    one call of the inner list's method of the same name) plus the shapes of the three types."""
+    reqs = ["ds/list_impl.go:threadSafeList." + m for m in TS_METHODS]
+    reqs += ["ds/list_impl.go:type=threadSafeList", "ds/list_impl.go:type=list", "ds/list_impl.go:type=listElement"]
+    return checklib.regen_skeletons(ctx, reqs, extra_methods=TS_METHODS)
+
+
 SPEC = {
+    "regen": regen,
     "lean_props": "Hive.Props.C10",
     "lean_namespace": "Hive.DList",
     "driver": "drv_c10",
     "harness": "c10",
-    "theorems": ["C10_wf_preserved", "C10_refines", "C10_refines_run", "C10_foreign_noop", "C10_neighbours"],
+    "theorems": ["C10_wf_preserved", "C10_refines", "C10_refines_run", "C10_foreign_noop", "C10_neighbours",
+                 "C10_skeleton_writers", "C10_skeleton_readers", "C10_skeleton_pushlists", "C10_skeleton_type_shapes"],
     "trusted_base": [
         "hand-written pointer-level model Hive/Model/DList.lean of ds/list_impl.go, tied by differential execution (harness/c10)",
         "Go's container/list executed in the harness as the independent reference the property names",
@@ -17,7 +36,8 @@ SPEC = {
         "handles that were live when Init was called on their list are excluded by hypothesis (okRun) and compared two-way only "
         "(systematically: stale-focused histories, comparison continues through corrupted rings and negative Len)",
         "concurrency of the thread-safe flavour is NOT modelled in Lean; it is smoke-tested by the harness (stress + forced "
-        "two-writer schedules behind a parked reader; oracle: no panic/deadlock, well-formed ring, Len, element multiset)"],
+        "two-writer schedules behind a parked reader; oracle: no panic/deadlock, well-formed ring, Len, element multiset; "
+        "reader calls deliver exactly one snapshot), and its lock structure is a regenerated skeleton obligation (C10_skeleton_*)"],
     "manifest": {
         "text": "Pointer-level Lean model of ds.List (heap of prev/next/owner/val nodes, two sentinel rings, the same loads/stores as "
                 "insert/remove/move) with theorems over every history: the ring well-formedness invariant is preserved "
